@@ -129,6 +129,9 @@ func MkObj(typ string, id int64) interface{} {
 		}
 		return o
 	}
+	if o := mkFed(typ, id); o != nil {
+		return o
+	}
 	panic("MkObj: unknown type " + typ)
 }
 
